@@ -1,0 +1,500 @@
+//! Verification hooks. Only compiled with `--cfg transparencies_stretto_verif`.
+//!
+//! Everything in here records or delays; nothing in here decides and nothing changes the
+//! results of the crate's own code. Oracles live outside the crate.
+#![allow(missing_docs, dead_code)]
+
+use std::sync::{Mutex, MutexGuard};
+
+fn lock<T>(m: &Mutex<T>) -> MutexGuard<'_, T> {
+    m.lock().unwrap_or_else(|e| e.into_inner())
+}
+
+/// Global logical clock shared by the hook logs and by the harness' own logs.
+pub mod seq {
+    use std::sync::atomic::{AtomicU64, Ordering};
+    static SEQ: AtomicU64 = AtomicU64::new(0);
+    #[inline]
+    pub fn next() -> u64 {
+        SEQ.fetch_add(1, Ordering::SeqCst) + 1
+    }
+    #[inline]
+    pub fn now() -> u64 {
+        SEQ.load(Ordering::SeqCst)
+    }
+}
+
+/// Virtual wall clock. `0` means "not armed": the real clock is used.
+pub mod clock {
+    use std::sync::atomic::{AtomicU64, Ordering};
+    use std::time::{Duration, SystemTimeError, UNIX_EPOCH};
+
+    static VNOW_NS: AtomicU64 = AtomicU64::new(0);
+
+    pub fn set(ns: u64) {
+        VNOW_NS.store(ns, Ordering::SeqCst)
+    }
+    pub fn disarm() {
+        VNOW_NS.store(0, Ordering::SeqCst)
+    }
+    pub fn advance(d: Duration) -> u64 {
+        let d = d.as_nanos() as u64;
+        VNOW_NS.fetch_add(d, Ordering::SeqCst) + d
+    }
+    pub fn now_ns() -> u64 {
+        VNOW_NS.load(Ordering::SeqCst)
+    }
+
+    /// Stand-in for `std::time::SystemTime` in `src/ttl.rs`.
+    #[derive(Copy, Clone, Eq, PartialEq, Ord, PartialOrd, Hash, Debug)]
+    pub struct SystemTime(std::time::SystemTime);
+
+    impl SystemTime {
+        pub fn now() -> Self {
+            let v = VNOW_NS.load(Ordering::SeqCst);
+            if v == 0 {
+                Self(std::time::SystemTime::now())
+            } else {
+                Self(UNIX_EPOCH + Duration::from_nanos(v))
+            }
+        }
+        pub fn duration_since(
+            &self,
+            earlier: std::time::SystemTime,
+        ) -> Result<Duration, SystemTimeError> {
+            self.0.duration_since(earlier)
+        }
+        pub fn elapsed(&self) -> Result<Duration, SystemTimeError> {
+            Self::now().0.duration_since(self.0)
+        }
+        pub fn unix_ns(&self) -> u64 {
+            self.0
+                .duration_since(UNIX_EPOCH)
+                .map(|d| d.as_nanos() as u64)
+                .unwrap_or(0)
+        }
+    }
+}
+
+/// Progress counters (process global).
+pub mod counters {
+    use std::sync::atomic::{AtomicU64, Ordering};
+
+    macro_rules! counters {
+        ($($name:ident),*) => {
+            $(pub static $name: AtomicU64 = AtomicU64::new(0);)*
+            #[derive(Clone, Copy, Debug, Default, PartialEq, Eq)]
+            #[allow(non_snake_case)]
+            pub struct Counters { $(pub $name: u64,)* }
+            pub fn snapshot() -> Counters { Counters { $($name: $name.load(Ordering::SeqCst),)* } }
+            pub fn reset() { $($name.store(0, Ordering::SeqCst);)* }
+        };
+    }
+    counters!(
+        ITEMS_HANDLED,
+        ITEMS_DRAINED,
+        TICKS_STARTED,
+        TICKS_DONE,
+        CLEARS_DONE,
+        HANDLER_ERRORS,
+        POLICY_BATCHES_APPLIED,
+        POLICY_KEYS_APPLIED,
+        PUSH_KEYS_KEPT,
+        PUSH_KEYS_DROPPED,
+        CACHE_WORKERS_STARTED,
+        CACHE_WORKERS_EXITED,
+        POLICY_WORKERS_STARTED,
+        POLICY_WORKERS_EXITED,
+        WORKERS_PANICKED,
+        START_TS_LEN
+    );
+
+    #[inline]
+    pub fn inc(c: &AtomicU64) {
+        c.fetch_add(1, Ordering::SeqCst);
+    }
+    #[inline]
+    pub fn add(c: &AtomicU64, n: u64) {
+        c.fetch_add(n, Ordering::SeqCst);
+    }
+    #[inline]
+    pub fn get(c: &AtomicU64) -> u64 {
+        c.load(Ordering::SeqCst)
+    }
+
+    /// Lives inside a background worker; its drop marks the worker's end (return or unwind).
+    pub struct WorkerGuard {
+        policy: bool,
+    }
+    impl WorkerGuard {
+        pub fn cache() -> Self {
+            inc(&CACHE_WORKERS_STARTED);
+            Self { policy: false }
+        }
+        pub fn policy() -> Self {
+            inc(&POLICY_WORKERS_STARTED);
+            Self { policy: true }
+        }
+    }
+    impl Drop for WorkerGuard {
+        fn drop(&mut self) {
+            if std::thread::panicking() {
+                inc(&WORKERS_PANICKED);
+            }
+            if self.policy {
+                inc(&POLICY_WORKERS_EXITED);
+            } else {
+                inc(&CACHE_WORKERS_EXITED);
+            }
+        }
+    }
+}
+
+/// Manually fed cleanup ticker.
+pub mod ticker {
+    use super::lock;
+    use std::sync::atomic::{AtomicBool, AtomicU64, Ordering};
+    use std::sync::Mutex;
+    use std::time::{Duration, Instant};
+
+    static ARMED: AtomicBool = AtomicBool::new(false);
+    static INTERVAL_NS: AtomicU64 = AtomicU64::new(0);
+    #[cfg(feature = "sync")]
+    static MANUAL_SYNC: Mutex<Option<crossbeam_channel::Sender<Instant>>> = Mutex::new(None);
+    #[cfg(feature = "async")]
+    static MANUAL_ASYNC: Mutex<Option<async_channel::Sender<Instant>>> = Mutex::new(None);
+
+    /// The next cache built in this process gets a harness-fed ticker instead of the real one.
+    pub fn arm_manual() {
+        ARMED.store(true, Ordering::SeqCst)
+    }
+    pub fn disarm() {
+        ARMED.store(false, Ordering::SeqCst);
+        #[cfg(feature = "sync")]
+        {
+            *lock(&MANUAL_SYNC) = None;
+        }
+        #[cfg(feature = "async")]
+        {
+            *lock(&MANUAL_ASYNC) = None;
+        }
+    }
+    /// Cleanup interval the most recently built cache was configured with.
+    pub fn interval_ns() -> u64 {
+        INTERVAL_NS.load(Ordering::SeqCst)
+    }
+
+    #[cfg(feature = "sync")]
+    pub fn wrap(
+        d: Duration,
+        real: crossbeam_channel::Receiver<Instant>,
+    ) -> crossbeam_channel::Receiver<Instant> {
+        INTERVAL_NS.store(d.as_nanos() as u64, Ordering::SeqCst);
+        if ARMED.swap(false, Ordering::SeqCst) {
+            let (tx, rx) = crossbeam_channel::unbounded();
+            *lock(&MANUAL_SYNC) = Some(tx);
+            rx
+        } else {
+            real
+        }
+    }
+
+    #[cfg(feature = "async")]
+    pub fn wrap_async(
+        d: Duration,
+        real: async_io::Timer,
+    ) -> futures::stream::BoxStream<'static, Instant> {
+        use futures::stream::StreamExt;
+        INTERVAL_NS.store(d.as_nanos() as u64, Ordering::SeqCst);
+        if ARMED.swap(false, Ordering::SeqCst) {
+            let (tx, rx) = async_channel::unbounded();
+            *lock(&MANUAL_ASYNC) = Some(tx);
+            rx.boxed()
+        } else {
+            real.boxed()
+        }
+    }
+
+    /// Feed one tick to the manual ticker; false if none is installed or its cache is gone.
+    pub fn tick() -> bool {
+        #[cfg(feature = "sync")]
+        if let Some(tx) = lock(&MANUAL_SYNC).as_ref() {
+            return tx.send(Instant::now()).is_ok();
+        }
+        #[cfg(feature = "async")]
+        if let Some(tx) = lock(&MANUAL_ASYNC).as_ref() {
+            return tx.try_send(Instant::now()).is_ok();
+        }
+        false
+    }
+}
+
+/// Named yield points: no-ops unless armed with seeded delays or with gates.
+pub mod sched {
+    use super::lock;
+    use std::cell::Cell;
+    use std::collections::HashMap;
+    use std::sync::atomic::{AtomicBool, Ordering};
+    use std::sync::{Arc, Condvar, Mutex};
+    use std::time::Duration;
+
+    thread_local! { static ROLE: Cell<u8> = const { Cell::new(0) }; }
+    /// Harness threads give themselves a non-zero role; background workers are role 0.
+    pub fn set_role(r: u8) {
+        ROLE.with(|c| c.set(r))
+    }
+    pub fn role() -> u8 {
+        ROLE.with(|c| c.get())
+    }
+
+    pub struct Gate {
+        state: Mutex<(bool, bool)>, // (arrived, open)
+        cv: Condvar,
+    }
+    impl Gate {
+        pub fn new() -> Arc<Self> {
+            Arc::new(Gate {
+                state: Mutex::new((false, false)),
+                cv: Condvar::new(),
+            })
+        }
+        /// Wait until some thread is parked at the gate. False on timeout.
+        pub fn wait_arrival(&self, timeout: Duration) -> bool {
+            let g = lock(&self.state);
+            let (g, res) = self
+                .cv
+                .wait_timeout_while(g, timeout, |s| !s.0)
+                .unwrap_or_else(|e| e.into_inner());
+            let _ = res;
+            g.0
+        }
+        pub fn arrived(&self) -> bool {
+            lock(&self.state).0
+        }
+        pub fn open(&self) {
+            let mut g = lock(&self.state);
+            g.1 = true;
+            self.cv.notify_all();
+        }
+        fn arrive_and_block(&self) {
+            let mut g = lock(&self.state);
+            g.0 = true;
+            self.cv.notify_all();
+            while !g.1 {
+                g = self.cv.wait(g).unwrap_or_else(|e| e.into_inner());
+            }
+        }
+    }
+
+    #[derive(Default)]
+    struct State {
+        gates: HashMap<&'static str, Arc<Gate>>,
+        delay_rng: u64,
+        delay_per_mille: u32,
+        delay_max_us: u32,
+        record: bool,
+        arrivals: Vec<(&'static str, u8)>,
+        counts: HashMap<&'static str, u64>,
+    }
+    static ENABLED: AtomicBool = AtomicBool::new(false);
+    static STATE: Mutex<Option<State>> = Mutex::new(None);
+
+    fn with<R>(f: impl FnOnce(&mut State) -> R) -> R {
+        let mut g = lock(&STATE);
+        f(g.get_or_insert_with(State::default))
+    }
+
+    /// One-shot gate: the first thread reaching `name` parks there until `open()`.
+    pub fn arm_gate(name: &'static str, g: Arc<Gate>) {
+        with(|s| {
+            s.gates.insert(name, g);
+        });
+        ENABLED.store(true, Ordering::SeqCst);
+    }
+    /// Seeded random delays: at each point, with probability `per_mille`/1000, yield, spin or sleep
+    /// for up to `max_us` microseconds.
+    pub fn arm_delays(seed: u64, per_mille: u32, max_us: u32) {
+        with(|s| {
+            s.delay_rng = seed | 1;
+            s.delay_per_mille = per_mille;
+            s.delay_max_us = max_us;
+        });
+        ENABLED.store(true, Ordering::SeqCst);
+    }
+    /// Record the sequence of (point, role) arrivals.
+    pub fn record(on: bool) {
+        with(|s| s.record = on);
+        if on {
+            ENABLED.store(true, Ordering::SeqCst);
+        }
+    }
+    /// Open and forget every gate, stop delaying and recording.
+    pub fn disarm_all() {
+        ENABLED.store(false, Ordering::SeqCst);
+        let old = lock(&STATE).take();
+        if let Some(old) = old {
+            for g in old.gates.values() {
+                g.open();
+            }
+        }
+    }
+    pub fn take_arrivals() -> Vec<(&'static str, u8)> {
+        with(|s| std::mem::take(&mut s.arrivals))
+    }
+    pub fn take_counts() -> HashMap<&'static str, u64> {
+        with(|s| std::mem::take(&mut s.counts))
+    }
+
+    #[inline]
+    pub fn point(name: &'static str) {
+        if !ENABLED.load(Ordering::Relaxed) {
+            return;
+        }
+        point_slow(name)
+    }
+
+    #[cold]
+    fn point_slow(name: &'static str) {
+        let role = role();
+        let (gate, delay) = {
+            let mut g = lock(&STATE);
+            let s = match g.as_mut() {
+                Some(s) => s,
+                None => return,
+            };
+            *s.counts.entry(name).or_insert(0) += 1;
+            if s.record && s.arrivals.len() < 1_000_000 {
+                s.arrivals.push((name, role));
+            }
+            let gate = s.gates.remove(name);
+            let mut delay = None;
+            if gate.is_none() && s.delay_per_mille > 0 {
+                let mut x = s.delay_rng;
+                x ^= x << 13;
+                x ^= x >> 7;
+                x ^= x << 17;
+                s.delay_rng = x;
+                if (x % 1000) < s.delay_per_mille as u64 {
+                    let us = (x >> 20) % (s.delay_max_us as u64 + 1);
+                    delay = Some(((x >> 12) % 3, us));
+                }
+            }
+            (gate, delay)
+        };
+        if let Some(g) = gate {
+            g.arrive_and_block();
+        } else if let Some((kind, us)) = delay {
+            match kind {
+                0 => std::thread::yield_now(),
+                1 => {
+                    let t0 = std::time::Instant::now();
+                    while (t0.elapsed().as_micros() as u64) < us {
+                        std::hint::spin_loop();
+                    }
+                }
+                _ => std::thread::sleep(Duration::from_micros(us)),
+            }
+        }
+    }
+}
+
+/// Observer for the policy: what `add()` really sampled and did, every change of the charged
+/// total, and the look-up batches. Events are appended while the policy lock is held, so the log
+/// order is the order the code itself serialised.
+pub mod observe {
+    use super::lock;
+    use std::sync::atomic::{AtomicBool, Ordering};
+    use std::sync::Mutex;
+
+    #[derive(Debug, Clone, Copy, Default, PartialEq, Eq)]
+    pub struct Costs {
+        pub used: i64,
+        pub sum: i128,
+        pub keys: usize,
+        pub max_cost: i64,
+    }
+
+    #[derive(Debug, Clone)]
+    pub enum Ev {
+        AddEnter { seq: u64, key: u64, cost: i64, st: Costs },
+        AddIter {
+            seq: u64,
+            key: u64,
+            cost: i64,
+            room: i64,
+            inc_hits: i64,
+            min_hits: i64,
+            sample: Vec<(u64, i64)>,
+            victim: u64,
+        },
+        /// outcome: 0 oversize, 1 update of a charged key, 2 admitted with room,
+        /// 3 rejected by popularity, 4 admitted after evictions
+        AddReturn { seq: u64, key: u64, cost: i64, outcome: u8, victims: Vec<(u64, i64)>, st: Costs },
+        Update { seq: u64, key: u64, cost: i64, st: Costs },
+        Remove { seq: u64, key: u64, st: Costs },
+        Clear { seq: u64, st: Costs },
+        MaxCost { seq: u64, max_cost: i64 },
+        /// outcome: 0 kept, 1 dropped (queue full), 2 refused (closed), 3 error (disconnected)
+        Push { seq: u64, keys: Vec<u64>, outcome: u8 },
+        Applied { seq: u64, keys: Vec<u64> },
+    }
+
+    static ENABLED: AtomicBool = AtomicBool::new(false);
+    static LOG: Mutex<Vec<Ev>> = Mutex::new(Vec::new());
+
+    pub fn enable(on: bool) {
+        ENABLED.store(on, Ordering::SeqCst)
+    }
+    #[inline]
+    pub fn enabled() -> bool {
+        ENABLED.load(Ordering::Relaxed)
+    }
+    #[inline]
+    pub fn emit(f: impl FnOnce(u64) -> Ev) {
+        if enabled() {
+            let mut g = lock(&LOG);
+            let seq = super::seq::next();
+            g.push(f(seq));
+        }
+    }
+    pub fn take() -> Vec<Ev> {
+        std::mem::take(&mut *lock(&LOG))
+    }
+}
+
+/// Read-only picture of a cache at one instant.
+#[derive(Debug, Clone, Default)]
+pub struct Snapshot {
+    /// resident entries
+    pub store: Vec<Entry>,
+    /// per-key charges of the policy
+    pub costs: Vec<(u64, i64)>,
+    pub used: i64,
+    pub max_cost: i64,
+    /// expiry index: bucket number -> (index, conflict) pairs
+    pub buckets: Vec<(i64, Vec<(u64, u64)>)>,
+    pub item_size: usize,
+    pub len: usize,
+}
+
+#[derive(Debug, Clone, Copy, Default, PartialEq, Eq)]
+pub struct Entry {
+    pub index: u64,
+    pub conflict: u64,
+    /// TTL given at the insert (0 = none), nanoseconds
+    pub ttl_ns: u64,
+    /// insert instant, nanoseconds since the epoch
+    pub created_ns: u64,
+    /// whatever the caller's projection made of the value
+    pub tag: u64,
+}
+
+/// Reset every process-global hook state (between two caches under test).
+pub fn reset() {
+    sched::disarm_all();
+    observe::enable(false);
+    let _ = observe::take();
+    ticker::disarm();
+    clock::disarm();
+    counters::reset();
+}
